@@ -414,10 +414,15 @@ def judge(ctx, root, case):
             apply_edit(None, root, ed)
         if c03.crowded_dirs(root) and False:
             return
+        cur = case
+        if one is None and case.get('switch'):
+            # the update asks for another hash set than the tree was created with
+            cur = dict(case, hashes=list(case['switch']))
+            ctx.count('hash_set_switched_updates')
         if one is not None:
             rc = one.run(case['wseed'] + rnd + 1)
         else:
-            rc = run_cli('update', root, case, case['wseed'] + rnd + 1)
+            rc = run_cli('update', root, cur, case['wseed'] + rnd + 1)
         if rc != 0:
             if isinstance(rc, Exception) and not type(rc).__module__.startswith('gemato'):
                 ctx.count('update_internal_error:' + adapt.exc_key(rc))
@@ -426,7 +431,7 @@ def judge(ctx, root, case):
             return
         ctx.count('updates_checked')
         new = set(in_use_dirs(root)) - before
-        if not check_tree(ctx, root, case, 'update%d' % rnd, new):
+        if not check_tree(ctx, root, cur, 'update%d' % rnd, new):
             return
 
 
@@ -488,6 +493,7 @@ def run_unit(u, ctx):
         case = {'kind': 'c19', 'tree': tree,
                 'profile': PROFILES[(u['i'] * PER_UNIT + j) % len(PROFILES)],
                 'hashes': rng.choice([None, None, ['SHA256'], ['MD5', 'SHA1']]),
+                'switch': rng.choice([None, None, ['SHA512'], ['MD5', 'SHA256']]),
                 'watermark': rng.choice([None, None, None, 0, 64, 4096]),
                 'format': rng.choice([None, None, 'bz2', 'xz']),
                 'wseed': rng.randrange(1 << 30),
